@@ -93,9 +93,10 @@ class PyFormatter(Formatter):
 
     @override(Formatter)
     def format_import_statement(self, t: Proto, as_name: Optional[str] = None) -> str:
-        module_name = (
-            t.get_option_as_string_or_raise("py.module_name") or f"{t.name}_bp"
-        )
+        # Defaults to the module generated for the imported proto, which follows its file name.
+        module_name = t.get_option_as_string_or_raise(
+            "py.module_name"
+        ) or self.format_out_filename(t, extension="")
         if as_name:
             return f"import {module_name} as {as_name}"
         return f"import {module_name}"
